@@ -71,6 +71,7 @@ var c04Configs = []lab.Cfg{
 	{AllowDup: true, WholeCID: true, StoreID: true, DataPad: 1},
 	{Sorted: true, StoreID: true},
 	{V1: true, MaxCid: 40},
+	{V1: true, DataPad: 1024},
 }
 
 // ops: "P:<name>" put, "M:<n1>,<n2>,.." putmany, "F" finalize, "R" finalize-readonly, "X" close, "D" discard
@@ -79,7 +80,7 @@ func c04Ops(api string, a c04Alpha) []string {
 	for _, n := range a.names {
 		ops = append(ops, "P:"+n)
 	}
-	if api == "blockstore" {
+	if api == "blockstore" || api == "blockstore-file" {
 		ops = append(ops, "M:A,A',B", "M:I,L,C", "F", "R", "X", "D")
 	} else {
 		ops = append(ops, "F")
@@ -109,6 +110,7 @@ type c04BS struct {
 	bs   *blockstore.ReadWrite
 	path string
 	dir  string
+	f    *os.File // set when the caller owns the file (OpenReadWriteFile)
 }
 
 func (s *c04BS) Put(b refcar.Block) error { return s.bs.Put(bg, lab.ToBlock(b)) }
@@ -156,7 +158,13 @@ func (s *c04BS) FinalizeReadOnly() error { return s.bs.FinalizeReadOnly() }
 func (s *c04BS) Close() error            { return s.bs.Close() }
 func (s *c04BS) Discard()                { s.bs.Discard() }
 func (s *c04BS) FileBytes() []byte       { return mustRead(s.path) }
-func (s *c04BS) Cleanup()                { s.bs.Discard(); os.Remove(s.path) }
+func (s *c04BS) Cleanup() {
+	s.bs.Discard()
+	if s.f != nil {
+		s.f.Close()
+	}
+	os.Remove(s.path)
+}
 
 type c04ST struct {
 	sc *storage.StorageCar
@@ -199,6 +207,21 @@ func (s *c04ST) FileBytes() []byte       { return s.mf.Bytes() }
 func (s *c04ST) Cleanup()                {}
 
 func c04Open(api string, cfg lab.Cfg, roots [][]byte, dir string) (c04Store, error) {
+	if api == "blockstore-file" {
+		// the caller owns the *os.File: it stays open after Discard/Finalize, so a late write would land
+		p := filepath.Join(dir, "rwf.car")
+		os.Remove(p)
+		f, err := os.OpenFile(p, os.O_RDWR|os.O_CREATE, 0o666)
+		if err != nil {
+			return nil, err
+		}
+		bs, err := blockstore.OpenReadWriteFile(f, lab.ToCids(roots, false), cfg.Opts()...)
+		if err != nil {
+			f.Close()
+			return nil, err
+		}
+		return &c04BS{bs: bs, path: p, dir: dir, f: f}, nil
+	}
 	if api == "blockstore" {
 		p := filepath.Join(dir, "rw.car")
 		os.Remove(p)
@@ -327,7 +350,7 @@ func c04RunHistory(t *mon.T, api string, cfg lab.Cfg, a c04Alpha, hist []string,
 			}
 		}
 		keys, kerr := st.Keys()
-		if api == "blockstore" {
+		if api != "storage" {
 			t.Events(1)
 			if state == stClosed {
 				if kerr == nil {
@@ -483,7 +506,7 @@ func c04RunHistory(t *mon.T, api string, cfg lab.Cfg, a c04Alpha, hist []string,
 				viol("closed/Put/no-error", "Put(%s) succeeded after the store was closed", n)
 			}
 		}
-		if api == "blockstore" {
+		if api != "storage" {
 			if err := st.PutMany([]refcar.Block{a.blocks["A"], a.blocks["B"]}); err == nil {
 				viol("closed/PutMany/no-error", "PutMany succeeded after the store was closed")
 			}
@@ -562,8 +585,11 @@ func genC04(g *mon.G) {
 	a := c04Alphabet()
 	ncfg := g.Pick(10, len(c04Configs))
 	depth := g.Pick(2, 3) // histories of length ≤ 1+depth
-	for _, api := range []string{"blockstore", "storage"} {
+	for _, api := range []string{"blockstore", "storage", "blockstore-file"} {
 		for ci := 0; ci < ncfg; ci++ {
+			if api == "blockstore-file" && ci%3 != 0 {
+				continue // the caller-owned-file variant on a third of the configurations
+			}
 			for _, op := range c04Ops(api, a) {
 				g.Emit(c04Desc{API: api, Cfg: ci, Prefix: []string{op}, Depth: depth})
 			}
@@ -580,7 +606,7 @@ func init() {
 	Register(&mon.Check{
 		ID:          "C04",
 		Level:       "exploration",
-		Rule:        "EXHAUSTIVE: all histories of length ≤ 3 (quick) / ≤ 4 (thorough) over the op alphabet {Put of 9 designed blocks (A; A' same multihash other codec; B; C equal digest other hash code; IA identity twin of A's digest; I; I0 empty identity; L and IL over-long), 2 PutMany batches (one rejected midway), Finalize, FinalizeReadOnly, Close, Discard} x 10 (quick) / 14 (thorough) option configurations x {blockstore.ReadWrite, storage.StorageCar on a memfile}; plus random histories of length 10-60. After EVERY step: Has/Get/GetSize of all 9 keys, AllKeysChan, Roots and the payload bytes on file are compared with the executable model; after a terminal operation every operation is run once more (errors required, file frozen). A case = all histories sharing a first op; counters.histories counts individual histories",
+		Rule:        "EXHAUSTIVE: all histories of length ≤ 3 (quick) / ≤ 4 (thorough) over the op alphabet {Put of 9 designed blocks (A; A' same multihash other codec; B; C equal digest other hash code; IA identity twin of A's digest; I; I0 empty identity; L and IL over-long), 2 PutMany batches (one rejected midway), Finalize, FinalizeReadOnly, Close, Discard} x 10 (quick) / 14 (thorough) option configurations x {blockstore.ReadWrite, storage.StorageCar on a memfile, and (a third of the configurations) blockstore.OpenReadWriteFile on a caller-owned file that stays open after Discard/Finalize}; plus random histories of length 10-60. After EVERY step: Has/Get/GetSize of all 9 keys, AllKeysChan, Roots and the payload bytes on file are compared with the executable model; after a terminal operation every operation is run once more (errors required, file frozen). A case = all histories sharing a first op; counters.histories counts individual histories",
 		Assumptions: []string{"executable model lab.Model implements the documented admission rules; lookups are compared against the admissible set, listings as multisets", "identity lookups after close and Roots() after close are not judged; GetSize of an absent identity CID under StoreIdentityCIDs may answer the implied size or not-found"},
 		Gen:         genC04,
 		Run:         runC04,
